@@ -396,12 +396,30 @@ func vfC17Run(c vfC17Case, ctx *vfCtx) *vfViolation {
 			var wg sync.WaitGroup
 			start := make(chan struct{})
 			var closeOK, closeErr atomic.Int32
+			// even G: every goroutine is a closer, released through a spin barrier so that the
+			// Close calls start within nanoseconds of each other; odd G: closers mixed with users
+			allClose := op.G%2 == 0
+			var ready atomic.Int32
+			panicked := make(chan string, op.G)
 			for g := 0; g < op.G; g++ {
 				wg.Add(1)
 				go func(g int) {
 					defer wg.Done()
+					defer func() {
+						if r := recover(); r != nil {
+							panicked <- fmt.Sprint(r)
+						}
+					}()
 					<-start
-					if g%3 == 0 {
+					if allClose {
+						ready.Add(1)
+						for spin := 0; ready.Load() < int32(op.G); spin++ {
+							if spin > 1<<16 {
+								runtime.Gosched()
+							}
+						}
+					}
+					if allClose || g%3 == 0 {
 						if err := st.Close(); err == nil {
 							closeOK.Add(1)
 						} else {
@@ -417,6 +435,12 @@ func vfC17Run(c vfC17Case, ctx *vfCtx) *vfViolation {
 			close(start)
 			wg.Wait()
 			isOpen[op.Slot], owner = false, -1
+			select {
+			case p := <-panicked:
+				return vfFail("op %d: panic while Close raced with %d other goroutines: %s", i, op.G-1, p)
+			default:
+			}
+			ctx.ClassIf(allClose, "race_close_all_closers")
 			if closeOK.Load() != 1 {
 				return vfFail("op %d: %d concurrent Close calls returned nil (want exactly 1; %d returned an error)", i, closeOK.Load(), closeErr.Load())
 			}
